@@ -136,6 +136,7 @@ def main():
         chk.unit(F, fn, C, 'math', 'fp')
     for sp in (True, False):
         chk.unit(F, 'treeNext', island.next_contracts(sp), 'math', 'fp', prefix='[%s]' % ('sparse' if sp else 'dense'))
+    chk.unit(F, 'treeIterInit', island.iter_contracts(), 'math', 'fp')
     chk.add_obligations(counting_lemmas(), {'function': 'cnt (ghost counting function): induction lemmas', 'file': 'contracts/island.py',
                                             'status': 'lemma', 'obligations': 4})
     import time
